@@ -26,7 +26,9 @@ of Csv.v / Rows.v / Lock.v where that already has the right granularity):
   frames        status_subtree (cache test, 'bfs' / 'dfs' selection, the filter
                 on "_source"); csvtable_to_dict (readlines, pop(0), the header
                 loop, the row loop with the `range(len(..))` cell loop)
-  lock          the statements after the row loop of write_status and the body
+  lock          (acquire(timeout=<positive>) -> AcqWait, acquire() / `with lock` -> AcqForever,
+                acquire(blocking=False) / timeout=0 -> AcqTry)
+                the statements after the row loop of write_status and the body
                 of get_status are walked in order and produce an ORDERED EVENT
                 LIST: os.path.exists, entering `with lock.acquire(..)` / `with
                 lock`, entering `with open(path, mode)`, f.write(..),
@@ -399,15 +401,47 @@ def path_assign(ps, st):
     return False
 
 
+def acquire_mode(call):
+    """lock.acquire(<args>) -> AcqWait | AcqForever | AcqTry  (filelock's signature:
+    acquire(timeout=None, poll_interval=0.05, *, poll_intervall=None, blocking=None))"""
+    def num(e):
+        if isinstance(e, ast.Constant) and isinstance(e.value, (int, float)) and not isinstance(e.value, bool):
+            return e.value
+        if isinstance(e, ast.UnaryOp) and isinstance(e.op, ast.USub) and isinstance(e.operand, ast.Constant) \
+                and isinstance(e.operand.value, (int, float)):
+            return -e.operand.value
+        return None
+    args = {}
+    if len(call.args) > 1:
+        bad(call, "acquire(..) with more than one positional argument")
+    if call.args:
+        args["timeout"] = call.args[0]
+    for k in call.keywords:
+        if k.arg in args or k.arg not in ("timeout", "blocking", "poll_interval"):
+            bad(call, "acquire(..) argument `%s` is outside the templates" % k.arg)
+        args[k.arg] = k.value
+    blocking = args.get("blocking")
+    if blocking is not None:
+        if not (isinstance(blocking, ast.Constant) and isinstance(blocking.value, bool)):
+            bad(call, "acquire(blocking=..) is not a literal")
+        if blocking.value is False:
+            return "AcqTry"
+    if "timeout" not in args:
+        return "AcqForever"
+    to = num(args["timeout"])
+    if to is None:
+        bad(call, "acquire(timeout=..) is not a numeric literal")
+    return "AcqWait" if to > 0 else ("AcqTry" if to == 0 else "AcqForever")
+
+
 def with_item(ps, item, handles):
     """-> (enter event, exit event)"""
     ce = item.context_expr
     if isinstance(ce, ast.Call) and isinstance(ce.func, ast.Attribute) and ce.func.attr == "acquire" and \
             isinstance(ce.func.value, ast.Name) and ce.func.value.id in ps.locks:
-        timed = bool(ce.args) or bool(ce.keywords)
-        return "EAcquire %s %s" % (g_str(ps.locks[ce.func.value.id]), "true" if timed else "false"), "ERelease"
+        return "EAcquire %s %s" % (g_str(ps.locks[ce.func.value.id]), acquire_mode(ce)), "ERelease"
     if isinstance(ce, ast.Name) and ce.id in ps.locks:
-        return "EAcquire %s false" % g_str(ps.locks[ce.id]), "ERelease"
+        return "EAcquire %s AcqForever" % g_str(ps.locks[ce.id]), "ERelease"
     if isinstance(ce, ast.Call) and isinstance(ce.func, ast.Name) and ce.func.id == "open" and not ce.keywords and \
             len(ce.args) == 2 and isinstance(ce.args[0], ast.Name) and ce.args[0].id in ps.files and \
             const_str(ce.args[1]) is not None and isinstance(item.optional_vars, ast.Name):
